@@ -426,4 +426,36 @@ theorem levelTys_nil_of_le (t : Ty) (n : Nat) (h : levelTys n t = []) : ∀ d, n
     · have : n = d + 1 := by omega
       subst this; exact h
 
+/-! ### map environments -/
+
+/-- the table entries of a map environment with distinct keys: the entry of `n` is the map's value under `n` -/
+theorem entries_get? (entries : List (String × Option Ty)) (hnd : (entries.map (·.1)).Nodup) (n : String) :
+    ∀ acc : Table, (entries.foldl (fun acc kv => acc.set kv.1 { ty := kv.2 }) acc).get? n =
+      match entries.find? (fun kv => kv.1 = n) with
+      | some kv => some { ty := kv.2 }
+      | none => acc.get? n := by
+  induction entries with
+  | nil => intro acc; rfl
+  | cons kv rest ih =>
+    intro acc
+    simp only [List.map_cons, List.nodup_cons] at hnd
+    rw [List.foldl_cons, ih hnd.2, List.find?_cons]
+    by_cases hk : kv.1 = n
+    · have hnone : rest.find? (fun kv => kv.1 = n) = none := by
+        rw [List.find?_eq_none]
+        intro x hx hxn
+        apply hnd.1
+        have : x.1 = kv.1 := by rw [hk]; simpa using hxn
+        rw [← this]
+        exact List.mem_map_of_mem hx
+      simp only [hk, decide_true, hnone, Table.get?_set, if_true]
+    · simp only [hk, decide_false, Table.get?_set, if_false]
+
+/-- the value given to `expr.Env` is a map with a usable string key type and distinct keys -/
+structure MapEnv (e : Env) (t k v : Ty) : Prop where
+  hty : e.ty = some t
+  hcore : t.core = .map k v
+  hkey : stringKeyOk .asIs k = true
+  hnodup : (e.entries.map (·.1)).Nodup
+
 end ExprModel.C16
